@@ -28,18 +28,25 @@ Proof. exact cyclic_only_if_cycle. Qed.
 Print Assumptions C15_cyclic_only_if_cycle.
 
 (* Reloads are never stale: for every history of edits and evaluations, the incremental engine
-   (memo table with revisions; add_module starts a new revision whenever a source changes) gives,
-   at every evaluation, the observable result of a fresh evaluation of the then-current sources. *)
+   (memo table with revisions; add_module starts a new revision whenever a source changes and
+   whenever a module that was requested before gets its first source) gives, at every evaluation,
+   the observable result of a fresh evaluation of the then-current sources. *)
 Theorem C15_inc_equals_fresh : forall (h : list op),
-  outputs (snd (run true empty_engine h)) = fresh_outputs [] h.
+  outputs (snd (run NewIfRequested empty_engine h)) = fresh_outputs [] h.
 Proof. exact inc_equals_fresh. Qed.
 Print Assumptions C15_inc_equals_fresh.
 
 Theorem C15_inc_equals_fresh_query : forall (h : list op) (m : name),
-  let e := fst (run true empty_engine h) in
+  let e := fst (run NewIfRequested empty_engine h) in
   canon (snd (fst (inc_eval e m))) = canon (fresh_eval (latest [] h) m).
 Proof. exact inc_equals_fresh_query. Qed.
 Print Assumptions C15_inc_equals_fresh_query.
+
+(* ... and likewise when every first definition starts a new revision. *)
+Theorem C15_inc_equals_fresh_always : forall (h : list op),
+  outputs (snd (run NewAlways empty_engine h)) = fresh_outputs [] h.
+Proof. exact inc_equals_fresh_always. Qed.
+Print Assumptions C15_inc_equals_fresh_always.
 
 (* Evaluated once: whatever the engine state, any number of queries without an edit in between runs
    the body of each module at most once. *)
@@ -51,12 +58,32 @@ Print Assumptions C15_eval_once.
    new revision) is correct only on histories that add modules while nothing is memoised ... *)
 Theorem C15_inc_equals_fresh_asis_partial : forall (h : list op),
   adds_when_clean false [] h ->
-  outputs (snd (run false empty_engine h)) = fresh_outputs [] h.
+  outputs (snd (run NewNever empty_engine h)) = fresh_outputs [] h.
 Proof. exact inc_equals_fresh_asis_partial. Qed.
 Print Assumptions C15_inc_equals_fresh_asis_partial.
 
 (* ... and is stale otherwise (import a missing module, define it, import it again). *)
 Theorem C15_inc_equals_fresh_asis_refuted :
-  exists h, outputs (snd (run false empty_engine h)) <> fresh_outputs [] h.
+  exists h, outputs (snd (run NewNever empty_engine h)) <> fresh_outputs [] h.
 Proof. exact inc_equals_fresh_asis_refuted. Qed.
 Print Assumptions C15_inc_equals_fresh_asis_refuted.
+
+(* How the cycle is named (recover_cycle, src/query.rs:465).  Under the stated shape of salsa's
+   participant list (Conc/Modules.v, `cycle_keys`): the code as it stands names the whole cycle only
+   when every member's import query is executed ... *)
+Theorem C15_report_asis_partial : forall (exec : name -> bool) (m1 : name) (rest : list name),
+  (forall m, In m rest -> exec m = true) -> report_asis (cycle_keys exec (m1 :: rest)) = m1 :: rest.
+Proof. exact report_asis_partial. Qed.
+Print Assumptions C15_report_asis_partial.
+
+(* ... and leaves out the members whose import query is merely re-validated in a new revision ... *)
+Theorem C15_report_asis_refuted :
+  exists (exec : name -> bool) (c : list name), NoDup c /\ c <> [] /\ report_asis (cycle_keys exec c) <> c.
+Proof. exact report_asis_refuted. Qed.
+Print Assumptions C15_report_asis_refuted.
+
+(* ... whereas the repaired extraction (fixes/C15-cycle-chain-revalidated-import.patch) always names it. *)
+Theorem C15_report_fixed_chain : forall (exec : name -> bool) (c : list name),
+  NoDup c -> c <> [] -> report_fixed (cycle_keys exec c) = c.
+Proof. exact report_fixed_chain. Qed.
+Print Assumptions C15_report_fixed_chain.
